@@ -14,3 +14,4 @@ import EpModel.Driver.Set
 import EpModel.Driver.Build
 import EpModel.Driver.Dec
 import EpModel.Props.C09
+import EpModel.Props.C12
